@@ -39,7 +39,8 @@ def conform(rep, rid, where, what, want, got, loc):
     if kind == "shape":
         # a rearrangement keeps the functions, inputs and constants of the formula; a different computation does not
         def sig(e):
-            fns = {n[1][-1] for n in walk(e) if n[0] == "call" and n[1][0] in ("g", "ext")}
+            fns = {n[1][-1] for n in walk(e) if n[0] == "call" and n[1][0] in ("g", "ext")} | \
+                {"." + n[1][2] for n in walk(e) if n[0] == "call" and n[1][0] == "m"}
             leaves = {n for n in walk(e) if n[0] in ("p", "f")}
             return fns, leaves
 
@@ -70,7 +71,8 @@ def conform(rep, rid, where, what, want, got, loc):
     return False
 
 
-PURE_CALLS = {"float", "int", "round", "isinstance", "ceil", "floor", "log", "log2", "pow", "exp", "len", "min", "max", "abs", "bool"}
+PURE_CALLS = {"float", "int", "round", "isinstance", "ceil", "floor", "log", "log2", "log10", "sqrt", "pow", "exp", "len", "min", "max", "abs", "bool",
+              "bit_length", "divmod", "sum", "is_integer", "range", "trunc", "frexp", "ldexp", "fsum"}
 
 
 def origin(prog, ctx, e, depth=0):
